@@ -40,13 +40,17 @@ type solveResult struct {
 }
 
 func runSolver(sp solverSpec, script string, dir string, id string, timeoutSec int, seed int) solveResult {
-	file := filepath.Join(dir, id+"."+sp.name+".smt2")
+	return runSolverCtx(context.Background(), sp, script, dir, id, timeoutSec, seed)
+}
+
+func runSolverCtx(parent context.Context, sp solverSpec, script string, dir string, id string, timeoutSec int, seed int) solveResult {
+	file := filepath.Join(dir, fmt.Sprintf("%s.%s.%d.smt2", id, sp.name, seed))
 	full := sp.pre(seed) + script + "(check-sat)\n"
 	if err := os.WriteFile(file, []byte(full), 0o644); err != nil {
 		return solveResult{status: "error", solver: sp.name, output: err.Error()}
 	}
 	args := sp.cmd(file, timeoutSec, seed)
-	ctx, cancel := context.WithTimeout(context.Background(), time.Duration(timeoutSec+5)*time.Second)
+	ctx, cancel := context.WithTimeout(parent, time.Duration(timeoutSec+3)*time.Second)
 	defer cancel()
 	start := time.Now()
 	cmd := exec.CommandContext(ctx, args[0], args[1:]...)
@@ -56,11 +60,7 @@ func runSolver(sp solverSpec, script string, dir string, id string, timeoutSec i
 	_ = cmd.Run()
 	el := time.Since(start).Seconds()
 	text := strings.TrimSpace(out.String())
-	first := text
-	if i := strings.IndexByte(text, '\n'); i >= 0 {
-		first = text[:i]
-	}
-	first = strings.TrimSpace(first)
+	first := strings.TrimSpace(firstLine(text))
 	status := "error"
 	switch {
 	case first == "unsat":
@@ -69,16 +69,16 @@ func runSolver(sp solverSpec, script string, dir string, id string, timeoutSec i
 		status = "sat"
 	case first == "unknown":
 		status = "unknown"
+	case parent.Err() != nil:
+		status = "cancelled"
 	case first == "timeout" || strings.Contains(text, "timeout") || ctx.Err() != nil || strings.Contains(text, "interrupted"):
 		status = "timeout"
-	}
-	if status == "error" && strings.HasPrefix(first, "(error") && strings.Contains(text, "\nunsat") {
-		status = "error"
 	}
 	return solveResult{status: status, solver: sp.name, seconds: el, output: text}
 }
 
-// Solve discharges one obligation with the portfolio. Cover queries only need "not unsat".
+// Solve discharges one obligation: all portfolio members start together, the first `unsat` wins and the others
+// are killed. Cover queries only need "not unsat".
 func Solve(w *World, o *Obligation, dir string, timeoutSec int, seed int) {
 	if o.Solver == "govc-determinism-analysis" || o.Solver == "ssa-frame" || o.Solver == "govc-analysis" {
 		return // decided by an analysis back end, not by SMT
@@ -93,51 +93,45 @@ func Solve(w *World, o *Obligation, dir string, timeoutSec int, seed int) {
 		o.Status, o.Solver, o.Seconds, o.Output = r.status, r.solver, r.seconds, r.output
 		return
 	}
-	var total float64
-	var outputs []string
-	// stage 1: z3-new, short
-	t1 := 5
-	if timeoutSec < t1 {
-		t1 = timeoutSec
-	}
-	r := runSolver(solvers[0], script, dir, id, t1, seed)
-	total += r.seconds
-	if r.status == "unsat" || r.status == "sat" {
-		o.Status, o.Solver, o.Seconds, o.Output = r.status, r.solver, total, r.output
-		return
-	}
-	outputs = append(outputs, r.solver+": "+r.output)
-	if r.status == "error" {
-		o.Status, o.Solver, o.Seconds, o.Output = "error", r.solver, total, r.output
-		return
-	}
-	// stage 2: race the others
-	type res struct{ r solveResult }
-	ch := make(chan solveResult, 4)
-	var wg sync.WaitGroup
-	for _, sp := range solvers[1:] {
-		sp := sp
-		wg.Add(1)
-		go func() {
-			defer wg.Done()
-			ch <- runSolver(sp, script, dir, id, timeoutSec, seed+1)
-		}()
-	}
-	go func() { wg.Wait(); close(ch) }()
-	final := solveResult{status: r.status, solver: r.solver}
+	// fast path: most obligations fall to z3-new within a fraction of a second
 	start := time.Now()
-	for rr := range ch {
+	r := runSolver(solvers[0], script, dir, id, 1, seed)
+	if r.status == "unsat" || r.status == "sat" || r.status == "error" {
+		o.Status, o.Solver, o.Seconds, o.Output = r.status, r.solver, time.Since(start).Seconds(), r.output
+		return
+	}
+	ctx, cancel := context.WithCancel(context.Background())
+	defer cancel()
+	type job struct {
+		sp   solverSpec
+		seed int
+	}
+	jobs := []job{{solvers[0], seed + 1}, {solvers[1], seed}, {solvers[2], seed}, {solvers[3], seed + 2}, {solvers[0], seed + 3}}
+	ch := make(chan solveResult, len(jobs))
+	for _, j := range jobs {
+		j := j
+		go func() { ch <- runSolverCtx(ctx, j.sp, script, dir, id, timeoutSec, j.seed) }()
+	}
+	final := solveResult{status: "unknown", solver: "portfolio"}
+	var outputs []string
+	for range jobs {
+		rr := <-ch
+		if rr.status == "cancelled" {
+			continue
+		}
 		outputs = append(outputs, rr.solver+": "+firstLine(rr.output))
 		if rr.status == "unsat" {
 			final = rr
+			cancel()
 			break
 		}
-		if rr.status == "sat" && final.status != "sat" {
+		if rr.status == "sat" {
 			final = rr
+		} else if final.status != "sat" && rr.status == "timeout" {
+			final.status = "timeout"
 		}
 	}
-	total += time.Since(start).Seconds()
-	o.Status, o.Solver, o.Seconds = final.status, final.solver, total
+	o.Status, o.Solver, o.Seconds = final.status, final.solver, time.Since(start).Seconds()
 	o.Output = strings.Join(outputs, " | ")
 }
 
